@@ -7,7 +7,10 @@ from worlds import WORLDS, PROPS
 st = json.load(open(os.path.join(V, "tools", "manifest_static.json")))
 base = json.load(open("/root/.vp/BASELINE.json"))["cmd"]
 checks = []
+READY = set(st['ready_props'])
 for pid in sorted(PROPS):
+    if pid not in READY:
+        continue
     m = PROPS[pid]
     w = WORLDS[m["world"]]
     checks.append({
@@ -24,11 +27,11 @@ for pid in sorted(PROPS):
 na = []
 for i in range(1, 32):
     pid = "C%02d" % i
-    if pid in PROPS:
+    if pid in PROPS and pid in READY:
         continue
     na.append({"property_id": pid, "reason": st["not_applicable"].get(pid) or st["not_built"]})
-engines = [{"name": n, "path": "/verif/harness/" + w["dir"], "serves_properties": sorted(p for p in PROPS if PROPS[p]["world"] == n),
-            "kind_free_text": "simulated world; real: " + "; ".join(w["real"][:3])} for n, w in sorted(WORLDS.items())]
+engines = [{"name": n, "path": "/verif/harness/" + w["dir"], "serves_properties": sorted(p for p in PROPS if PROPS[p]["world"] == n and p in READY),
+            "kind_free_text": "simulated world; real: " + "; ".join(w["real"][:3])} for n, w in sorted(WORLDS.items()) if any(PROPS[p]['world'] == n and p in READY for p in PROPS)]
 man = {"version": 1, "setup_cmd": "./check build-all",
        "hooks": {"guard": "verif", "enable": "checks build /repo's working tree with `go test -c -tags verif` plus a go build overlay that adds the harness files (nothing in /repo is replaced except the two emptied SQLite amalgamation files)",
                  "baseline_off_cmd": base, "source_commits": st["hook_commits"], "add_only": True},
